@@ -33,7 +33,26 @@ SC = "MiniMcmcVerif.Sched."
 
 RP = "MiniMcmcVerif.Reporter."
 
+DI = "MiniMcmcVerif.Dist."
+
 PROPS = {
+    "C15": {
+        "module": "MiniMcmcVerif.Props.C15Measure",
+        "obligations": [DI + n for n in ["gauss2d_norm_minus_unnorm_const", "quad2_eq", "dgNew_inverse", "dgNew_normConst", "diffable_batch_rowwise", "dg_eq_gauss2d",
+                                         "gaussian_hasGradient", "rosenbrock2d_hasGradient", "iso_logp_eq_normal", "iso_logp_symm", "exp_lnNormal",
+                                         "exp_lnNormal_eq_gaussianPDF", "iso_density_integrates_to_one"]],
+        "rel32": 5e-3, "abs32": 2e-3, "rel64": 3e-4, "abs64": 1e-4,
+        "level_text": "Theorems over R about the closed forms the driver executes: Gaussian2D's normalised and unnormalised forms differ by the constant -ln(2pi) - 1/2 ln|Sigma|; the quadratic form is the Mahalanobis form; "
+                      "DiffableGaussian2D::new computes the inverse and the normalising constant, its batched and single-point forms agree row by row and equal the normalised 2-D Gaussian; the closed-form gradients of the Gaussian "
+                      "and of Rosenbrock2D are the derivatives (HasDerivAt, coordinate-wise); IsotropicGaussian::logp(from,to) is the sum of one-dimensional normal log-densities with mean from_i and standard deviation std, symmetric, "
+                      "and exp of each term is Mathlib's gaussianPDFReal, which integrates to 1. Tied to distributions.rs by evaluating every public method and the autodiff gradients HMC/NUTS use against the model at Float.",
+        "level_note": "Trusted: burn autodiff returns the gradient of the tensor program (cross-checked numerically against the closed forms on every run); libm ln. RosenbrockND's closed-form gradient is used by the driver but not proved "
+                      "(HasDerivAt over a list-indexed sum) — it is validated against autodiff only. sample() is checked bit-exactly against from + std*z for the reference normal stream, or statistically if drawn differently.",
+        "rule": "random means, SPD covariances with condition number up to 1e4, points, batches of 1-64, std log-uniform in (1e-3,1e3), dimension 1-32 (RosenbrockND 2-32), f32 and f64 scalars and backends; five families "
+                "(Gaussian2D, DiffableGaussian2D batched/single/gradients, IsotropicGaussian logp both ways + unnorm + sample + set_seed, Rosenbrock2D, RosenbrockND); distinct by (family, type, size, first value)",
+        "trusted": ["burn autodiff computes the gradient of the tensor expression", "f32-level relative accuracy (5e-3 / 3e-4) is what the tensor-based targets deliver: from_floats stores parameters as f32"],
+        "assumptions": ["covariances are symmetric positive definite (det > 0)"],
+    },
     "C10": {
         "obligations": [RP + n for n in ["progBody_fst", "progress_rows_eq_run", "worker_messages", "workers_send_final", "sweep_spec", "inv_init", "inv_iter",
                                          "retired_init", "retired_iter", "reporter_exit_sound", "iter_all_final", "reporter_terminates"]],
